@@ -75,8 +75,15 @@ def gen_case(rng, tier):
             regs.append({'form': 'file', 'name': rng.choice(names)})
         else:
             regs.append({'form': 'dir'})
-    return {'names': names, 'dirs': dirs, 'regs': regs, 'depth': rng.choice([0, 1, 2, 3, 7, 7, 9]),
-            'run_search': rng.random() < 0.06}
+    # which search object each registration uses: sometimes the SAME search is registered
+    # through several (overlapping) paths
+    if rng.random() < 0.35:
+        def_of = [rng.randrange(max(1, len(regs) - 1)) for _ in regs]
+    else:
+        def_of = list(range(len(regs)))
+    return {'names': names, 'dirs': dirs, 'regs': regs, 'def_of': def_of,
+            'depth': rng.choice([0, 1, 2, 3, 7, 7, 9]),
+            'run_search': rng.random() < (0.2 if len(set(def_of)) < len(regs) else 0.05)}
 
 
 # ---- the harness's own reading of a name (no `re` on this path) -------------------------
@@ -151,6 +158,7 @@ def run_impl(case):
             os.mkdir(os.path.join(d, n))
             with open(os.path.join(d, n, 'inner.log'), 'w') as f:
                 f.write('x\n')
+        def_of = case.get('def_of') or list(range(len(case['regs'])))
         defs = [SearchDef(r'.*', tag=f't{i}') for i in range(len(case['regs']))]
         fs = FileSearcher(max_logrotate_depth=case['depth'])
         regs_out = []
@@ -165,9 +173,9 @@ def run_impl(case):
                 path, kind = os.path.join(d, r['pattern']), 'other'
                 listing = glob.glob(path)
             alone = FileSearcher(max_logrotate_depth=case['depth'])
-            alone.add(defs[i], path)
-            fs.add(defs[i], path)
-            regs_out.append({'search': i, 'path': os.path.relpath(path, d), 'kind': kind,
+            alone.add(defs[def_of[i]], path)
+            fs.add(defs[def_of[i]], path)
+            regs_out.append({'search': def_of[i], 'path': os.path.relpath(path, d), 'kind': kind,
                              'entries': [dict(entry(x), path=os.path.relpath(x, d)) |
                                          {'stem': os.path.relpath(entry(x)['stem'], d)
                                           if entry(x)['stem'] else ''} for x in listing],
